@@ -20,6 +20,8 @@ class OrdinalFormat__next_towards__MPBFloat(Contract):
     def pre(self, x, y, allow_inf):
         return {'bounds': mpbfl_bounds(self),
                 'x_member': mpbfl_inF(self, x) and not x._isnan,
+                # private helper: every caller has rejected an infinite x unless allow_inf
+                'x_inf_allowed': not x._isinf or allow_inf,
                 'y_ok': not y._isnan and (y._isinf or mpbfl_inF(self, y))}
 
     def post(self, x, y, allow_inf, result):
@@ -39,6 +41,8 @@ class OrdinalFormat__next_away__MPBFloat(Contract):
     def pre(self, x, y, allow_inf):
         return {'bounds': mpbfl_bounds(self),
                 'x_member': mpbfl_inF(self, x) and not x._isnan,
+                # private helper: every caller has rejected an infinite x unless allow_inf
+                'x_inf_allowed': not x._isinf or allow_inf,
                 'y_ok': not y._isnan and (y._isinf or mpbfl_inF(self, y))}
 
     def post(self, x, y, allow_inf, result):
